@@ -21,6 +21,7 @@ type Engine struct {
 	repo            string
 	fset            *token.FileSet
 	prog            *ssa.Program
+	closureAlias    map[string][]string // go/ssa name of a closure -> parent$variable names
 	pkgs            []*packages.Package
 	spkgs           []*ssa.Package
 	target          map[*types.Package]bool
@@ -146,6 +147,10 @@ func NewEngine(repo string, patterns []string, specPaths []string) (*Engine, err
 				}
 			}
 		}
+	}
+	e.closureAlias = map[string][]string{}
+	for ak, ck := range alias {
+		e.closureAlias[ck] = append(e.closureAlias[ck], ak)
 	}
 	for ak, ck := range alias {
 		if fs, ok := e.spec.Funcs[ak]; ok {
